@@ -179,8 +179,23 @@ def _case(draw: Any, args: dict) -> dict:
             ctor["init_attrs"] = ias
         nb = draw(st.sampled_from([0, 0, 1, 2, 3]))
         bases = [["cls", b] for b in bases_pool[:nb]]
+        # generic classes: the bound / the value constraints of a type parameter are written in the class header, so
+        # a flagged construct there belongs to the class declaration
+        tparams = []
+        tp_types = _types().filter(lambda t: not (ref.kinds_in(t) & {"listn", "setn"}))  # the type checker rejects list[int, str] inside TypeVar(...)
+        for _ in range(draw(st.sampled_from([0, 0, 0, 1, 1, 2]))):
+            # shown in the header: the value constraints of an invariant type variable, the bound of a co-/contravariant
+            # one (the bound of an invariant type variable is not written at all: not generated, the statement is silent)
+            mode = draw(st.sampled_from(["free", "bound", "bound", "values"]))
+            variance = draw(st.sampled_from(["out", "in"])) if mode == "bound" else ""
+            tparams.append({"name": namer.fresh("TV"), "variance": variance, "bound": draw(tp_types) if mode == "bound" else None, "values": [draw(tp_types), draw(tp_types)] if mode == "values" else []})
+        # a method that uses the type variable (only an unflagged one: whether a method repeats the bound of a class
+        # type parameter in its own header is not C20's business)
+        tp0_plain = bool(tparams) and not type_features(tparams[0]["bound"]) and not any(type_features(v) for v in tparams[0]["values"])
+        if tp0_plain and draw(st.booleans()):
+            members.append(gt.func(namer.fresh("me_"), [gt.param(namer.fresh("a"), "pos", ["tvar", tparams[0]["name"]], None)], ret=["tvar", tparams[0]["name"]], kind="method"))
         mperm = draw(st.permutations(range(len(members))))
-        var.append(gt.klass(namer.fresh("Cls"), [members[i] for i in mperm], bases=bases, ctor=ctor))
+        var.append(gt.klass(namer.fresh("Cls"), [members[i] for i in mperm], bases=bases, ctor=ctor, tparams=tparams))
     order = draw(st.permutations(range(len(var))))
     decls += [var[i] for i in order]
     mod = gt.module([pkgname, "todomod"], decls, pre=["CONST_X = 3", "", "", "def untyped_helper(): ..."])
@@ -244,6 +259,11 @@ def judge(case: dict) -> dict:
                 feats, tags = func_features(d["ctor"], is_ctor=True)
             if len(d["bases"]) >= 2:
                 feats.add("multiple_inheritance")
+            for tp in d.get("tparams", []):
+                feats |= type_features(tp["bound"])
+                for v in tp["values"]:
+                    feats |= type_features(v)
+                res["stats"].append("generic_class_type_parameter:" + ("bound" if tp["bound"] else "values" if tp["values"] else "free"))
             check((*owner, d["name"]), "class", feats, tags)
             if d.get("ctor"):
                 untyped_params = {p["name"] for p in d["ctor"]["params"] if p["ann"] is None and p["default"] is None}
